@@ -102,6 +102,10 @@ type pathState struct {
 	logWrites bool
 	writes   []*value
 	lastPanic string
+	models   []cachedModel
+	lits     map[*smt.Term]bool
+	litHits  int
+	cacheHits int
 	nseeds   int
 	choices  map[string]uint64
 	sliceAt  map[*value][]value
@@ -131,12 +135,89 @@ func (ps *pathState) assume(t *smt.Term) {
 		return
 	}
 	ps.sol.Assert(t)
+	ps.noteLiteral(t, true)
+	// keep only cached models that still satisfy the path condition
+	k := 0
+	for _, m := range ps.models {
+		if v, ok := smt.Eval(t, m.vals, m.memo); ok && v == 1 {
+			ps.models[k] = m
+			k++
+		}
+	}
+	ps.models = ps.models[:k]
 }
 
+// noteLiteral records syntactic facts implied by the path condition.
+func (ps *pathState) noteLiteral(t *smt.Term, val bool) {
+	if ps.lits == nil {
+		ps.lits = map[*smt.Term]bool{}
+	}
+	ps.lits[t] = val
+	switch t.Op {
+	case smt.ONot:
+		ps.noteLiteral(t.Args[0], !val)
+	case smt.OAnd:
+		if val {
+			ps.noteLiteral(t.Args[0], true)
+			ps.noteLiteral(t.Args[1], true)
+		}
+	case smt.OOr:
+		if !val {
+			ps.noteLiteral(t.Args[0], false)
+			ps.noteLiteral(t.Args[1], false)
+		}
+	}
+}
+
+type cachedModel struct {
+	vals map[string]uint64
+	memo smt.EvalMemo
+}
+
+func (ps *pathState) addModel(m map[string]uint64) {
+	if m == nil {
+		return
+	}
+	if len(ps.models) >= 6 {
+		ps.models = ps.models[1:]
+	}
+	ps.models = append(ps.models, cachedModel{m, smt.NewEvalMemo()})
+}
+
+// holdsInSomeModel reports whether a cached model of the pc satisfies t.
+func (ps *pathState) holdsInSomeModel(t *smt.Term) bool {
+	for i := len(ps.models) - 1; i >= 0; i-- {
+		m := ps.models[i]
+		if v, ok := smt.Eval(t, m.vals, m.memo); ok && v == 1 {
+			ps.cacheHits++
+			return true
+		}
+	}
+	return false
+}
+
+// check decides pc ∧ extra, consulting and feeding the model cache.
 func (ps *pathState) check(extra ...*smt.Term) smt.Result {
-	r, _ := ps.sol.Check(extra, nil)
+	if len(extra) == 1 {
+		if v, ok := ps.lits[extra[0]]; ok && !v {
+			ps.litHits++
+			return smt.Unsat
+		}
+	}
+	if len(extra) == 1 && ps.holdsInSomeModel(extra[0]) {
+		return smt.Sat
+	}
+	if len(extra) == 0 && len(ps.models) > 0 {
+		ps.cacheHits++
+		return smt.Sat
+	}
+	r, m := ps.sol.Check(extra, ps.ctx.Vars)
 	if r == smt.Unknown {
 		ps.res.Unknowns++
+	}
+	if r == smt.Sat {
+		// the model satisfies pc (and extra); valid for the cache as a model of pc
+		ps.addModel(m)
 	}
 	return r
 }
@@ -217,14 +298,25 @@ func (ps *pathState) concretize(t *smt.Term) uint64 {
 			}
 		} else {
 			// ask for a model value
-			v := ps.fresh("cz", t.Sort)
-			ps.assume(c.Eq(v, t))
-			r, m := ps.sol.Check(nil, []*smt.Term{v})
-			if r != smt.Sat {
-				ps.res.Unknowns++
-				ps.abort("abort", "concretize: solver gave "+r.String())
+			var cand uint64
+			got := false
+			for i := len(ps.models) - 1; i >= 0 && !got; i-- {
+				if v, ok := smt.Eval(t, ps.models[i].vals, ps.models[i].memo); ok {
+					cand, got = v, true
+					ps.cacheHits++
+				}
 			}
-			cand := m[v.Name]
+			if !got {
+				v := ps.fresh("cz", t.Sort)
+				ps.assume(c.Eq(v, t))
+				r, m := ps.sol.Check(nil, ps.ctx.Vars)
+				if r != smt.Sat {
+					ps.res.Unknowns++
+					ps.abort("abort", "concretize: solver gave "+r.String())
+				}
+				ps.addModel(m)
+				cand = m[v.Name]
+			}
 			d = Decision{K: 'c', V: cand, T: true}
 			if ps.check(c.Not(c.Eq(t, c.BVC(w, cand)))) != smt.Unsat {
 				ps.altWith(Decision{K: 'c', V: cand, T: false})
@@ -273,13 +365,17 @@ func (ps *pathState) inputVars() []*smt.Term {
 
 // modelFor returns input values satisfying pc ∧ extras.
 func (ps *pathState) modelFor(extras ...*smt.Term) (smt.Result, map[string]uint64) {
-	vars := ps.inputVars()
-	r, m := ps.sol.Check(extras, vars)
+	r, all := ps.sol.Check(extras, ps.ctx.Vars)
 	if r == smt.Unknown {
 		ps.res.Unknowns++
 	}
-	if r == smt.Sat && m == nil {
+	var m map[string]uint64
+	if r == smt.Sat {
+		ps.addModel(all)
 		m = map[string]uint64{}
+		for _, v := range ps.inputVars() {
+			m[v.Name] = all[v.Name]
+		}
 	}
 	return r, m
 }
